@@ -69,7 +69,10 @@ def gen_cases(rng, n, max_depth=4):
         data = shapegen.gen_data(rng, literal_bias=0.4)
         gen = shapegen.CompGen(rng, data)
         for _ in range(rng.choice((1, 1, 2))):
-            gen.top(rng.randint(1, max_depth))
+            if rng.random() < 0.15:
+                gen.waivable_parent(rng.randint(1, 3))
+            else:
+                gen.top(rng.randint(1, max_depth))
         cases.append(("comp", gen.g, graph_from_triples(data)))
     return cases
 
